@@ -71,7 +71,11 @@ PinMono(k, q, s) == SumF(LAMBDA j : FMul(FMul(FFromInt(Binom(k, j)), FMul(PowI(q
 PinExpect(coef, q, s) == Expect(coef, LAMBDA k : PinMono(k, q, s))
 PinLo(q, s) == FSub(q, FMul("2.5", s))
 PinHi(q, s) == FAdd(q, FMul("3.0", s))
-PinBound(coef, q, s, h) == FMul(FMul(KPin, FDiv(h, s)), Scale(coef, PinLo(q, s), PinHi(q, s)))
+\* (a window reaching below zero covers |x| from 0 to the larger of its two ends)
+PinBound(coef, q, s, h) ==
+    FMul(FMul(KPin, FDiv(h, s)),
+         IF FLt(PinLo(q, s), Zero) THEN Scale(coef, Zero, FMax(PinHi(q, s), FNeg(PinLo(q, s))))
+         ELSE Scale(coef, PinLo(q, s), PinHi(q, s)))
 
 ----------------------------------------------------------------------------
 (* Slit length: (1/L) int_0^L (q^2+u^2)^(k/2) du *)
